@@ -352,6 +352,15 @@ Theorem c20_k1_returned_is_winner :
 Proof. exact sp_k1_returned_is_winner. Qed.
 Print Assumptions c20_k1_returned_is_winner.
 
+(* apart from ties (a null set) exactly one index wins: the events "i wins" partition the
+   draws, in accordance with c20_k1_total_probability *)
+Theorem c20_k1_exactly_one_winner :
+  forall us ws, ws <> nil -> sp_no_ties us ws ->
+    exists i, (i < length ws)%nat /\ sp_wins us ws i /\
+              forall j, (j < length ws)%nat -> sp_wins us ws j -> j = i.
+Proof. exact sp_exactly_one_winner. Qed.
+Print Assumptions c20_k1_exactly_one_winner.
+
 (* ---- sampleNum = 2, "without replacement": P(i has the largest key and j the second
    largest) = w_i/W * w_j/(W - w_i): i is picked with probability w_i/W, then j among the
    remaining items with probability proportional to its weight.  As the double integral
